@@ -94,6 +94,7 @@ func raceGroups(c *Ctx) []raceGroup {
 		{"stream-dir", 4}, {"stream-dir", p()},
 		{"stream-secret", p()},
 		{keyedPlainGroup, 4},
+		{hsInvalidateGroup, 4},
 	}
 	if c.Thorough() {
 		for _, q := range procChoices {
@@ -367,6 +368,8 @@ func raceWorker(c *Ctx, group string) error {
 			wlStreamDir(c, out, true)
 		case keyedPlainGroup:
 			wlSecretKeyedPlain(c, out)
+		case hsInvalidateGroup:
+			wlHsInvalidate(c, out)
 		default:
 			out.Notes = append(out.Notes, "unknown group "+group)
 		}
